@@ -205,9 +205,10 @@ def explore_consumer(case):
     axes = _axes(seed) if tier == "thorough" else [_axes(seed)[0], _axes(seed)[2]]
     has_tr = any(s[0] == "vec" for s in AL)
     n = B.mshape[0]
+    signed = any(sl[0] == "angle" for sl in AL)
     for ax in axes:
         for tr in ([0.0, 3.0] if has_tr else [0.0]):
-            ths = list(THETAS)
+            ths = list(THETAS) + ([-t for t in THETAS if t > 0] if signed else [])
             # harvest the switches of every compiled function along this ray
             bpairs = []
             for op, prog in progs.items():
@@ -221,9 +222,9 @@ def explore_consumer(case):
             for th in sorted(set(ths)):
                 x = _mk_x(AL, ax, th, tr)
                 res.count("evaluations")
-                if th > 0:
+                if th != 0:
                     res.nontrivial.add(hash(x.tobytes() + name.encode()))
-                cls = "theta=0" if th == 0 else ("theta<1e-100" if th < 1e-100 else ("theta<switch" if th < 0.0316 else "theta>=switch"))
+                cls = "theta=0" if th == 0 else ("theta<0" if th < 0 else ("theta<1e-100" if th < 1e-100 else ("theta<switch" if th < 0.0316 else "theta>=switch")))
                 # Euler: exclusion of the gimbal band is irrelevant below 1 rad about these axes except pitch; decided by reference
                 if any(s[0] == "rot" and s[1] == "Euler" for s in L) and gutil.euler_in_band(ref.rot(ax * th)):
                     res.count("excluded_by_reference")
@@ -311,6 +312,48 @@ def explore_ad(case):
     return res
 
 
+def explore_mixed(case):
+    """exp_mixed / calculate_N consume three series coefficients: accuracy over the same theta lattice (theta = |w| dt, dt = 1)"""
+    from . import c08
+    config, tier, seed = case["config"], case["tier"], case["seed"]
+    res = core.Result()
+    x0 = c08.initial_states(config, seed)[1]
+    p0, v0, R0 = c08.split(config, x0)
+    a = np.array([1.0, -2.0, 3.0]) * (3.0 / math.sqrt(14.0))
+    prog = sxvm.compile_fn(c08.fn(config))
+    for ax in _axes(seed):
+        ths = list(THETAS)
+        for lo, hi in harvest.walk(prog, lambda t: [list(x0), list(a), list(ax * t), [9.8], [1.0]], sorted(THETAS)):
+            res.add_set("harvested_boundaries", "%s theta=%r|%r" % (config, lo, hi))
+            ths += [lo, hi]
+        for th in sorted(set(ths)):
+            for g in (0.0, 9.8):
+                res.count("evaluations")
+                if th > 0:
+                    res.nontrivial.add(hash((config, ax.tobytes(), th, g)))
+                w = ax * th
+                x1 = c08.step(config, x0, a, w, g, 1.0)
+                pr, vr, Rr = c08.ref_step(p0, v0, R0, a, w, g, 1.0)
+                p1, v1, R1 = c08.split(config, x1)
+                res.outcomes.add(hash(np.round(np.concatenate([pr, vr]), 9).tobytes()))
+                err = max(maxabs(p1 - pr), maxabs(v1 - vr), ref.rot_dist(R1, Rr)) if np.all(np.isfinite(x1)) else float("inf")
+                if not err <= 1e-9 * (1 + maxabs(pr) + maxabs(vr)):
+                    res.fail(site=config + ".exp_mixed", clause="accurate_to_1e-9", cls="theta=0" if th == 0 else ("theta<switch" if th < 0.0316 else "theta>=switch"),
+                             detail=dict(theta=th, axis=ax, g=g, err=err, x1=x1), sub="mixed", case=case)
+    res.samples.append(dict(config=config, mixed_thetas=len(THETAS)))
+    return res
+
+
+class _SubM:
+    chunks = 1
+
+    def cases(self, tier, seed):
+        return [dict(config=c, tier=tier, seed=seed) for c in ("strapdown_quat", "exp_mixed_mrp")]
+
+    def run(self, case):
+        return explore_mixed(case)
+
+
 class _SubT:
     chunks = 1
 
@@ -351,5 +394,6 @@ class _SubAD:
         return explore_ad(case)
 
 
-SUBCHECKS = {"table": _SubT(), "consumer": _SubC(), "ad": _SubAD()}
-REPLAY = {"table": lambda c: explore_table(c).fails, "consumer": lambda c: explore_consumer(c).fails, "ad": lambda c: explore_ad(c).fails}
+SUBCHECKS = {"table": _SubT(), "consumer": _SubC(), "ad": _SubAD(), "mixed": _SubM()}
+REPLAY = {"table": lambda c: explore_table(c).fails, "consumer": lambda c: explore_consumer(c).fails, "ad": lambda c: explore_ad(c).fails,
+          "mixed": lambda c: explore_mixed(c).fails}
